@@ -166,7 +166,8 @@ Rebuild(vi, G(_), newFields, newUnits) ==
   IN Install(Canon(arrays \o [i \in DOMAIN old |-> G(arrays[old[i]])], dicts,
                    [vecs EXCEPT ![vi] = [@ EXCEPT !.fields = newFields, !.units = newUnits,
                                                   !.cells = [k \in DOMAIN @ |-> IF @[k] = 0 THEN 0 ELSE newOf(@[k])]]]))
-AddFields(vi, names) ==       \* names: sequence of new, pairwise different field names
+AddFields(vi, names) ==       \* names: sequence of new, pairwise different field names (a list naming ANY existing
+                              \* field is refused as a whole and is a stuttering step: the replay tries one first)
   LET v == vecs[vi]  nf == Len(v.fields)  k == Len(names)
       G(a) == MkArr(nf + k, [r \in DOMAIN a.rows |-> a.rows[r] \o [j \in 1..k |-> 0]])
   IN /\ SeqSet(names) \cap SeqSet(v.fields) = {} /\ Cardinality(SeqSet(names)) = k /\ k >= 1
